@@ -573,13 +573,18 @@ def builtin_workload(ck, st, L, X, K, rng, tier):
               ('Crystal_F_H_StructureFactor_Partial', rF, sp0('Crystal_F_H_StructureFactor_Partial', rep(fc, n12),
                [rep(Hf[:, 0], n12), rep(Hf[:, 1], n12), rep(Hf[:, 2], n12), FL[:, 0], FL[:, 1], FL[:, 2]], [rep(fE, n12), rep(fD, n12), rep(fr, n12)]), rep(fc, n12), np.repeat(Hf, n12, axis=0), rep(fE, n12)),
               ('Crystal_F_H_StructureFactor', rFf, sp0('Crystal_F_H_StructureFactor', fc, [Hf[:, 0], Hf[:, 1], Hf[:, 2]], [fE, fD, fr]), fc, Hf, fE)]
+    # ... and through the by-pointer entry points the bindings use (Crystal_F_H_StructureFactor2 / _Partial2): the same bits again
+    sph = lambda fn, ci, icols, dcols=(): L.special(fn, s=[names[c] for c in np.asarray(ci).tolist()], i=icols, d=dcols, helper=True)
+    noslot += [('Crystal_F_H_StructureFactor_Partial2', rF, sph('Crystal_F_H_StructureFactor_Partial', rep(fc, n12),
+                [rep(Hf[:, 0], n12), rep(Hf[:, 1], n12), rep(Hf[:, 2], n12), FL[:, 0], FL[:, 1], FL[:, 2]], [rep(fE, n12), rep(fD, n12), rep(fr, n12)]), rep(fc, n12), np.repeat(Hf, n12, axis=0), rep(fE, n12)),
+               ('Crystal_F_H_StructureFactor2', rFf, sph('Crystal_F_H_StructureFactor', fc, [Hf[:, 0], Hf[:, 1], Hf[:, 2]], [fE, fD, fr]), fc, Hf, fE)]
     for fn, a, b, cc_, HH_, EE_ in noslot:
         va, vb = a.v3[:, :2], b.v3[:, :2]
         bad = np.nonzero(((va.view('u8') != vb.view('u8')) & ~(np.isnan(va) & np.isnan(vb))).any(axis=1))[0]
         st['noslot'] = st.get('noslot', 0) + len(a)
         for k in bad[:2]:
-            ck.violation('c13:%s:value-without-error-slot-differs' % fn,
-                         '%s(%s, E=%.17g, hkl=%r, ...) returns %r without an error slot and %r (%s) with one' % (
+            ck.violation(('c13:%s:differs-from-the-by-value-function' if fn.endswith('2') else 'c13:%s:value-without-error-slot-differs') % fn,
+                         ('%s(%s, E=%.17g, hkl=%r, ...) returns %r, the by-value function %r (%s)' if fn.endswith('2') else '%s(%s, E=%.17g, hkl=%r, ...) returns %r without an error slot and %r (%s) with one') % (
                              fn, names[int(cc_[k])], float(EE_[k]), HH_[k].tolist(), vb[k].tolist(), va[k].tolist(), a.msg(k) if a.err[k] else 'success'),
                          dict(function=fn, crystal=names[int(cc_[k])], hkl=HH_[k].tolist(), energy=float(EE_[k]), error_slot=False))
 
@@ -620,6 +625,22 @@ def gen_cell(rng, k, goodZ, nodata):
     while True:
         abc = np.round(rng.uniform(3.0, 14.0, 3), 4)
         ang = np.round(rng.uniform(50.0, 130.0, 3), 3)
+        if k % 5 == 1:
+            # cells with symmetry: equal angles (rhombohedral, primitive fcc 60, primitive bcc 109.47), equal edges, hexagonal, monoclinic,
+            # orthogonal - exactly equal arguments are where a special-cased formula would sit
+            kind = (k // 5) % 7
+            if kind in (0, 1):
+                ang[:] = [60.0, 109.4712206, 33.5, 70.5287794, 85.0, 100.0, 120.0 - 1e-3, 55.0][(k // 35) % 8]
+            elif kind == 2:
+                ang[1] = ang[0]
+            elif kind == 3:
+                ang[:] = [90.0, 90.0, 120.0]; abc[1] = abc[0]
+            elif kind == 4:
+                ang[0] = ang[2] = 90.0
+            elif kind == 5:
+                ang[:] = 90.0
+            if kind in (1, 6):
+                abc[:] = abc[0]
         g = Geometry(abc[0], abc[1], abc[2], ang[0], ang[1], ang[2])
         if g.w > 0.04:              # (V/abc)^2: stay away from degenerate (flat) cells, where every formula is ill-conditioned
             break
